@@ -94,6 +94,7 @@ class Call:
 class WT:
     def __init__(self, prog, depth=3, inline_public=False, keep=(), backend=None, two_d=None):
         self.prog = prog
+        self.noserial = False       # True: two calls of a package function with equal arguments are the same term (pure helpers)
         self.two_d = two_d          # predicate on terms: values known to be 2-D arrays (`.shape` is then a pair of extents)
         self.backend = backend      # 'numpy' / 'dask': `mapper(agg)(..)` on an ArrayTypeFunctionMapping calls that backend's function
         self.maxdepth = depth
@@ -282,7 +283,7 @@ class WT:
             if lf is not None and lf in self.keep:
                 bound = self.bind(lf, args, kwargs) or {}
                 self.serial += 1
-                res = ('call', lf.qualname, tuple(args), tuple(sorted(kwargs.items())), self.serial)
+                res = ('call', lf.qualname, tuple(args), tuple(sorted(kwargs.items()))) + (() if self.noserial else (self.serial,))
                 self.calls.append(Call(lf, bound, args, kwargs, e, list(self.guards), f, res))
                 return res
             if lf is not None and not (lf.vararg or lf.kwarg):
@@ -320,7 +321,7 @@ class WT:
                 if ret is not None:
                     return ret
             self.serial += 1
-            res = ('call', target.qualname, tuple(args), tuple(sorted(kwargs.items())), self.serial)
+            res = ('call', target.qualname, tuple(args), tuple(sorted(kwargs.items()))) + (() if self.noserial else (self.serial,))
             self.calls.append(Call(target, bound or {}, args, kwargs, e, list(self.guards), f, res))
             return res
         callee = target.dotted if isinstance(target, Ext) else (self.ev(f, fn, env, depth) if not isinstance(fn, ast.Name) else ('global', fn.id))
